@@ -135,8 +135,9 @@ def ctl_term(c):
         ve = st.get("verr") or {}
         pr = st.get("probe") or {}
         probe = 0 if not pr.get("kind") else (1 if pr.get("delivered") else 2)
-        out.append("(mkCtl %s %s %s %s %s %d %s)" % (C.cq_list(evs), C.cq_list(wr), obs(o, full=False), C.cq_bool(ve.get("expected", False)), C.cq_bool(ve.get("reported", False)), probe,
-                                                     C.cq_list([S(f) for f in st.get("files") or []])))
+        out.append("(mkCtl %s %s %s %s %s %d %s %s)" % (C.cq_list(evs), C.cq_list(wr), obs(o, full=False), C.cq_bool(ve.get("expected", False)), C.cq_bool(ve.get("reported", False)), probe,
+                                                     C.cq_list([S(f) for f in st.get("files") or []]),
+                                                     C.cq_list(["(%s, %s)" % (S(x[0]), S(x[1])) for x in st.get("pt") or []])))
     ld = c.get("leader") or {"writes": [], "policies": []}
     pol_class = {p["key"]: p["class"] for p in ld["policies"]}
     lw = [S("%s/%s" % (KIND_OF_RESOURCE.get(w["resource"], w["resource"]), w["key"])) for w in ld["writes"] if w["resource"] != "policies"]
